@@ -190,10 +190,10 @@ example : Ev.called (.setSent [65, 66] false) ∉ (pairRun cM cS hM0 hS0 (some 6
     Ev.called (.processInbound []) ∉ (pairRun cM cS hM0 hS0 (some 68) none 200).1.evs := by decide +kernel
 
 /-- cut after 69 bytes — only the EOT checksum byte is lost, and the payload bytes sum to 0 mod 256 (the
-observation at the end of `Props/C02_order.lean`): the master accepts the frame, hands the message over and
-goes on; the slave reports it sent. In accordance with the theorem: it WAS handed over. -/
-example : Ev.called (.setSent [65, 66] false) ∈ (pairRun cM cS hM0 hS0 (some 69) none 200).2.evs ∧
-    Ev.called (.processInbound []) ∈ (pairRun cM cS hM0 hS0 (some 69) none 200).1.evs := by decide +kernel
+observation at the end of `Props/C02_order.lean`): the read error of the checksum byte is returned, so the
+master reports a lost connection like for every other cut; nothing is handed over, nothing is reported sent -/
+example : Ev.called (.setSent [65, 66] false) ∉ (pairRun cM cS hM0 hS0 (some 69) none 200).2.evs ∧
+    Ev.called (.processInbound []) ∉ (pairRun cM cS hM0 hS0 (some 69) none 200).1.evs := by decide +kernel
 
 /-- the same with a BATCHED handler on the master's side (`Ex1.cMb`, hypotheses `Ex1.ok_Mb`, `Ex1.fuel_Mb`): one
 `GetInboundAnswers` call instead of `GetInboundAnswer`, same outcome -/
